@@ -390,3 +390,11 @@ def edits_consumed(db, ctx):
     rb = db.one("rollback", "InputBuffer")
     ok2 = any(c.get("k") == "MethodCall" and c.get("method") in ("clear", "drain", "truncate") and "replaces" in render(c["recv"]) for c, _ in walk(rb.hir))
     ctx.ob("rollback|clears", ok2, "InputBuffer::rollback discards the pending edits: %s" % ok2, fn=rb)
+
+
+@rule("C10.mode-switch", "switching the mode of a live tokenizer loads the split list of the mode being ENTERED (re-evaluation of C09.pairing: "
+                         "matching the mode being left makes the analysis after set_mode depend on which modes the tokenizer was in before)")
+def mode_switch(db, ctx):
+    from . import C09
+    C09.pairing(db, ctx)
+    ctx.floor(4)
